@@ -27,6 +27,9 @@ type TV struct {
 	// Dup (slice_any / map_any): the Go value built for the first item is stored a second time (appended,
 	// or under the key "dup~"), i.e. ONE native map / slice / container instance at two places of an acyclic value
 	Dup bool `json:"dup,omitempty"`
+	// Big (T == "big_slice_any"): a []any of this many ints followed by one string (lengths around and far
+	// beyond 1024, not multiples of 4 or 8)
+	Big int `json:"big,omitempty"`
 }
 
 type C12Case struct {
@@ -41,7 +44,8 @@ type myStruct struct{ A int }
 var c12Entries = []string{"NewList", "NewListOf", "NewListFrom", "Add", "Insert", "InsertEnd", "Replace", "ListSetTF", "ListSetTFPad", "ListSetTFNested",
 	"NewObject", "NewObjectFrom", "Set", "SetOverwrite", "ObjSetTF", "ObjSetTFNested",
 	"ListMap", "ListMapValues", "ListMapInts", "ListMapStrings", "ListMapFloats", "ListMapBools", "ListMapObjects", "ListMapLists", "ListMapAsync",
-	"ObjMap", "ObjMapValues", "ObjMapInts", "ObjMapStrings", "ObjMapFloats", "ObjMapBools", "ObjMapObjects", "ObjMapLists", "ObjMapAsync", "Direct"}
+	"ObjMap", "ObjMapValues", "ObjMapInts", "ObjMapStrings", "ObjMapFloats", "ObjMapBools", "ObjMapObjects", "ObjMapLists", "ObjMapAsync", "Direct",
+	"AddSpreadTwice", "SetSpreadTwice"}
 
 var unsupportedTypes = []string{"time", "struct", "ptr", "slice_int8", "bytes", "map_string_int8", "map_int_string", "array", "complex", "uintptr", "chan", "func",
 	"jsonNumber", "namedint", "namedstring", "slice_uint", "slice_float32", "slice_slice_any", "map_string_slice_any", "slice_int64", "map_string_float32", "error",
@@ -188,6 +192,9 @@ func genTV(t *rapid.T, depth int) TV {
 		tv.Dup = n > 0 && oneIn(t, 4, "dup")
 		return tv
 	}
+	if oneIn(t, 12, "bigslice") {
+		return TV{T: "big_slice_any", Big: []int{1023, 1025, 1027, 2049, 4099, 5003}[drawIdx(t, 6, "bign")]}
+	}
 	return TV{T: unsupportedTypes[drawIdx(t, len(unsupportedTypes), "unsup")]}
 }
 
@@ -294,6 +301,12 @@ func toGo(tv TV) any {
 		return s
 	case "nil_slice_any":
 		return []any(nil)
+	case "big_slice_any":
+		s := make([]any, 0, tv.Big+1)
+		for i := 0; i < tv.Big; i++ {
+			s = append(s, i)
+		}
+		return append(s, "last")
 	case "map_any":
 		m := make(map[string]any, len(tv.Items))
 		for i, it := range tv.Items {
@@ -538,6 +551,13 @@ func expectTV(tv TV) (V, bool) {
 			out.L = append(out.L, out.L[0])
 		}
 		return out, true
+	case "big_slice_any":
+		out := V{K: KList, L: make([]V, 0, tv.Big+1)}
+		for i := 0; i < tv.Big; i++ {
+			out.L = append(out.L, VInt(i))
+		}
+		out.L = append(out.L, VStr("last"))
+		return out, true
 	case "nil_slice_any", "nil_slice_Object", "nil_slice_List", "nil_slice_string", "nil_slice_bool", "nil_slice_int", "nil_slice_float64":
 		return V{K: KList}, true
 	case "nil_map_any", "nil_map_Object", "nil_map_List", "nil_map_string", "nil_map_bool", "nil_map_int", "nil_map_float64":
@@ -720,6 +740,19 @@ func CheckC12(c *C12Case, st *Stats) error {
 		l := at.NewList("p")
 		setPre(l)
 		call = func() { cont, idx = l.Add(x), 1 }
+	case "AddSpreadTwice":
+		// the caller spreads ONE slice into two calls: the second call sees the values the first one saw
+		vals := []any{"p", x}
+		call = func() {
+			at.NewList().Add(vals...)
+			cont, idx = at.NewList(vals...), 1
+		}
+	case "SetSpreadTwice":
+		pairs := []any{"a", 1, "k", x}
+		call = func() {
+			at.NewObject().Set(pairs...)
+			cont, key = at.NewObject(pairs...), "k"
+		}
 	case "Insert":
 		l := at.NewList("p", "q")
 		setPre(l)
@@ -896,6 +929,6 @@ func CheckC12(c *C12Case, st *Stats) error {
 
 func init() {
 	Register("C12",
-		"Go values of every supported dynamic type over full ranges (int8..int64, uint8..uint64 and uint up to MaxInt with width edges, float32 incl. subnormals/MaxFloat32/0.1f/-0, float64, string, bool, nil, Object and List by reference, the 7 slice and 7 map flavours incl. nil and empty and nil interface entries in the Object/List flavours, []any / map[string]any nested to depth 3, in one case of four holding ONE native map / slice / container instance at two places) and 30 unsupported types (time.Time, struct, pointer, typed nil pointers / func / chan, []int8, []byte, map[string]int8, map[int]string, array, complex, uintptr, chan, func, json.Number, named int/string, []uint, []float32, [][]any, ...), also nested inside []any/map[string]any, x 35 entry points (constructors, Add, Insert, Replace, Set, tree-form writes incl. padding and nested paths, the results of every Map variant on lists and objects incl. MapAsync, and NewListFrom/NewObjectFrom called directly). Oracle: an independent type switch in the harness gives the expected kind/value; Get returns exactly nil/int/float64/string/bool/Object/List, TypeOf agrees, the matching typed getter returns the value and the five others panic, content equals the expected tree bit-exactly, containers passed by reference keep identity; unsupported values make the call panic and leave a pre-existing container unchanged. Non-trivial = any value whose Go type is not already canonical. Distinct = distinct FNV-64a hash of the case JSON.",
+		"Go values of every supported dynamic type over full ranges (int8..int64, uint8..uint64 and uint up to MaxInt with width edges, float32 incl. subnormals/MaxFloat32/0.1f/-0, float64, string, bool, nil, Object and List by reference, the 7 slice and 7 map flavours incl. nil and empty and nil interface entries in the Object/List flavours, []any / map[string]any nested to depth 3, in one case of four holding ONE native map / slice / container instance at two places) and 30 unsupported types (time.Time, struct, pointer, typed nil pointers / func / chan, []int8, []byte, map[string]int8, map[int]string, array, complex, uintptr, chan, func, json.Number, named int/string, []uint, []float32, [][]any, ...), also nested inside []any/map[string]any, x 37 entry points (two of them spread one Go slice into two successive calls) (constructors, Add, Insert, Replace, Set, tree-form writes incl. padding and nested paths, the results of every Map variant on lists and objects incl. MapAsync, and NewListFrom/NewObjectFrom called directly). Oracle: an independent type switch in the harness gives the expected kind/value; Get returns exactly nil/int/float64/string/bool/Object/List, TypeOf agrees, the matching typed getter returns the value and the five others panic, content equals the expected tree bit-exactly, containers passed by reference keep identity; unsupported values make the call panic and leave a pre-existing container unchanged. Non-trivial = any value whose Go type is not already canonical. Distinct = distinct FNV-64a hash of the case JSON.",
 		GenC12, CheckC12)
 }
